@@ -395,6 +395,7 @@ func c12GenMore(tier string, r *hx.Rng) {
 		fmt.Fprintln(w, c12GenM(r))
 	}
 	c12GenJobs(tier, r)
+	c12GenConc(tier, r)
 }
 
 func c12ImplMore(f []string) string {
@@ -406,6 +407,10 @@ func c12ImplMore(f []string) string {
 		return c12MObsLine(c12RunMaxJobs(limit, f[2:]))
 	case "j":
 		return c12ImplJ(f)
+	case "i":
+		return c12ImplI(f)
+	case "c":
+		return c12RunStress(f)
 	}
 	return "?"
 }
@@ -419,6 +424,10 @@ func c12OracleMore(f []string) string {
 		return c12OracleM(limit, f[2:], c12RunMaxJobs(limit, f[2:]))
 	case "j":
 		return c12OracleJ(f)
+	case "i":
+		return c12OracleI(f)
+	case "c":
+		return c12OracleC(f)
 	}
 	return "skip"
 }
